@@ -163,15 +163,79 @@ def constraints(kwargs):
 
 
 # ---------------------------------------------------------------- blank database object
+class _BootConn(object):
+    """stands in for the connection while the REAL FeatureDB.__init__ runs natively: answers the three start-up queries
+    with an empty database of the default dialect, accepts pragmas; logs nothing"""
+
+    class _Cur(object):
+        def __init__(self):
+            self.rows = []
+
+        def execute(self, q, args=()):
+            t = " ".join(str(q).split()).upper()
+            if "FROM META" in t:
+                import gffutils.helpers as _H
+                self.rows = [("ghost", _H._jsonify(dict(constants.dialect)))]
+            elif "SQLITE_MASTER" in t or "SQLITE_STAT" in t:
+                self.rows = [("sqlite_stat1",)]
+            else:
+                self.rows = []
+            return self
+
+        def executescript(self, q):
+            return self
+
+        def fetchone(self):
+            return self.rows[0] if self.rows else None
+
+        def fetchall(self):
+            return list(self.rows)
+
+        def __iter__(self):
+            return iter(self.rows)
+
+    def __init__(self):
+        self.row_factory = None
+        self.text_factory = str
+
+    def cursor(self):
+        return _BootConn._Cur()
+
+    def execute(self, q, args=()):
+        return self.cursor().execute(q, args)
+
+    def executescript(self, q):
+        return self.cursor()
+
+    def commit(self):
+        pass
+
+
 def blank_db(conn=None, dialect=None):
-    db = object.__new__(I.FeatureDB)
+    """A FeatureDB on a ghost connection.  The object is built by the REAL FeatureDB.__init__ (run natively against a
+    bootstrap connection), so that every instance attribute the current source sets up exists - a change that adds one
+    (a cache, a flag) must not trip the harness; the attributes the units rely on are then set explicitly.  If the
+    constructor cannot be run this way the object is assembled by hand (the construction that was used before)."""
+    import collections
+    import warnings as _w
+    db = None
+    try:
+        import gffutils.create as _C
+        boot = object.__new__(_C._DBCreator)
+        boot.conn, boot.dbfn = _BootConn(), ":ghost:"
+        with _w.catch_warnings():
+            _w.simplefilter("ignore")
+            db = I.FeatureDB(boot)
+    except BaseException:
+        db = None
+    if db is None:
+        db = object.__new__(I.FeatureDB)
     db.conn = conn if conn is not None else ghostdb.GhostConn()
     db.dbfn = ":ghost:"
     db.dialect = dialect or constants.dialect
     db.keep_order = False
     db.sort_attribute_values = False
     db.default_encoding = "utf-8"
-    import collections
     db._autoincrements = collections.defaultdict(int)
     db.directives = []
     db.version = "ghost"
